@@ -30,7 +30,7 @@ func init() {
 	reg.Register(runner.Check{
 		ID:    "C10",
 		Level: "fault_enumeration",
-		Rule: "hostile-input enumeration against the real endpoints: a peer holding a valid credential (user bob) sends validly encrypted segments built by the independent encoder: protocol type {0..12,255} x session id {0, own, the live session id of another user, unknown} x seq {0,1,2^32-1} x unAck {0,2^32-1} x window {0,65535} x fragment {0,255} x status code of session segments {0,1,2,255} x length fields {consistent, payload length too large, too small, exactly 1025, 65535, prefix too large, invalid low-entropy fields}, singly and as second segment after a valid open; on both transports, from the session's own address and from a second address, against the server (with a victim session of user alice running) and against the client (hostile server); " +
+		Rule: "hostile-input enumeration against the real endpoints: a peer holding a valid credential (user bob) sends validly encrypted segments built by the independent encoder: protocol type {0..12,255} x session id {0, own, the live session id of another user, unknown} x seq {0,1,2^32-1} x unAck {0,2^32-1} x window {0,65535} x fragment {0,255} x status code of session segments {0,1,2,255} x length fields {consistent, payload length too large, too small, exactly 1025, 65535, prefix too large, invalid low-entropy fields}, singly and as second segment after a valid open (also back to back with it and sealed under a second account of the hostile peer); on both transports, from the session's own address and from a second address, against the server (with a victim session of user alice running) and against the client (hostile server); " +
 			"plus all unauthenticated inputs of C05's shapes; SOCKS5: every byte string of length <=5 over {00,01,02,03,04,05,ff} and every truncation / single-byte substitution of valid requests, responses and UDP headers into the request/response readers, the UDP datagram parser, UDPAssociateWrapper and the client-side authentication. tear-down of the UDP relay loops on a real session (egress control connection: byte / end of stream / reset; client close; downstream datagram in flight) under every schedule with <=1 deviation (quick) / <=2 (thorough), a deviation being a goroutine switch or a goroutine held up for 50 ms / 3 s before an atomic write. Oracle: no panic in any goroutine, no deadlock, the victim's transfer completes. distinct = distinct hostile programs / byte strings",
 		Assumptions: []string{
 			"a panic in any goroutine is a process crash (mieru has no recover)",
@@ -44,10 +44,12 @@ func init() {
 var users = []*appctlpb.User{
 	{Name: proto.String("alice"), Password: proto.String("pw1")},
 	{Name: proto.String("bob"), Password: proto.String("pw2")},
+	{Name: proto.String("carol"), Password: proto.String("pw3")}, // a second account of the hostile peer
 }
 
 var alice = refwire.Cred{User: "alice", Password: "pw1"}
 var bob = refwire.Cred{User: "bob", Password: "pw2"}
+var carol = refwire.Cred{User: "carol", Password: "pw3"}
 
 type hseg struct {
 	proto    uint8
@@ -71,6 +73,11 @@ type hprog struct {
 	udp        bool
 	secondAddr bool
 	openFirst  bool
+	// backToBack: no pause between the open request and the following segments (they are in the
+	// server's socket buffer together); cred2: the following segments are sealed under the hostile
+	// peer's second account
+	backToBack bool
+	cred2      bool
 	segs       []hseg
 	seed       int64
 }
@@ -80,7 +87,7 @@ func (p hprog) String() string {
 	if p.udp {
 		t = "udp"
 	}
-	return fmt.Sprintf("%s second-addr=%v open-first=%v segs=%v", t, p.secondAddr, p.openFirst, p.segs)
+	return fmt.Sprintf("%s second-addr=%v open-first=%v back-to-back=%v second-account=%v segs=%v", t, p.secondAddr, p.openFirst, p.backToBack, p.cred2, p.segs)
 }
 
 func build(h hseg, own, victim uint32) (*refwire.Seg, func(*refwire.Seg)) {
@@ -209,7 +216,9 @@ func execClient(ps []hprog, ctl *explore.Ctl) explore.Result {
 				if p.openFirst {
 					k++
 					ep.WriteTo(refwire.EncodeDatagram(&refwire.Seg{Proto: refwire.OpenSessionRequest, SessionID: own, Payload: socksReq}, bob, refwire.EncodeOpts{Nonce: nonce(k), Unix: unix()}), srvAddr)
-					vsched.Sleep(20 * time.Millisecond)
+					if !p.backToBack {
+						vsched.Sleep(20 * time.Millisecond)
+					}
 				}
 				for _, h := range p.segs {
 					s, tweak := build(h, own, victim)
@@ -218,8 +227,17 @@ func execClient(ps []hprog, ctl *explore.Ctl) explore.Result {
 					if p.secondAddr {
 						from = ep2
 					}
-					from.WriteTo(refwire.EncodeDatagram(s, bob, refwire.EncodeOpts{Nonce: nonce(k), Unix: unix(), Tweak: tweak}), srvAddr)
-					vsched.Sleep(10 * time.Millisecond)
+					cr := bob
+					if p.cred2 {
+						cr = carol
+					}
+					from.WriteTo(refwire.EncodeDatagram(s, cr, refwire.EncodeOpts{Nonce: nonce(k), Unix: unix(), Tweak: tweak}), srvAddr)
+					if !p.backToBack {
+						vsched.Sleep(10 * time.Millisecond)
+					}
+				}
+				if p.backToBack {
+					vsched.Sleep(30 * time.Millisecond)
 				}
 				// tidy up: a proper close of the attacker's own session, so that it stops ticking
 				k++
@@ -509,6 +527,22 @@ func units(tier string) []runner.Unit {
 						if udp && role == "client" && (h.sidKind == 1 || h.sidKind == 2) {
 							if !run(hprog{udp: true, openFirst: true, secondAddr: true, segs: []hseg{h}}) {
 								return
+							}
+						}
+					}
+					// a hostile peer with two accounts: a session opened under one, and at once (or 20 ms
+					// later) a segment naming that session sealed under the other
+					if udp && role == "client" {
+						for _, h := range hs {
+							if h.sidKind != 1 || h.lenKind != 0 || h.seq > 1 || h.unack != 0 || h.window != 65535 || h.fragment != 0 || h.status > 1 {
+								continue
+							}
+							for _, b2b := range []bool{true, false} {
+								for _, second := range []bool{false, true} {
+									if !run(hprog{udp: true, openFirst: true, backToBack: b2b, cred2: true, secondAddr: second, segs: []hseg{h}}) {
+										return
+									}
+								}
 							}
 						}
 					}
